@@ -11,10 +11,13 @@
   pattern of the result is compared exactly; the words `unit`, `parallel`, `normal`, `ccw` are
   tolerance tests evaluated on the Rust side only (norm within 1e-12 of 1, …) — the model prints
   them unconditionally (they are theorems `C19_unitDir_*` over ℝ).
+  `geo flop <f64|f32> <add|sub|mul|div> <hex a> <hex b>` ties the idealised rounding `rnd 53` / `rnd 24` to
+  the hardware arithmetic (exact comparison; see `geoFlop`).
   Model-only commands (no Rust counterpart; used by the tolerance tie of the skewness):
   `geo skewang <pi> <θ…>` and `geo corners <x y …>`.
 -/
 import Honeycomb.Model.Geometry
+import Honeycomb.Model.Rounding
 import Honeycomb.Model.Session
 
 namespace HC
@@ -166,9 +169,33 @@ def geoCmd (op : String) (a : List Rat) : Option String :=
   | some r => some r
   | none => geoOpSkew op a
 
+/-- `geo flop <f64|f32> <add|sub|mul|div> <hex a> <hex b>`: one correctly rounded operation of idealised
+    binary64 / binary32 (`rnd 53` / `rnd 24`, Model/Rounding.lean) on two floats given by their bit patterns;
+    the reply is the exact rational value of the result.  The Rust side performs the same operation on the
+    hardware.  `bad-op` on NaN/infinite operands and on division by zero. -/
+def geoFlop (ty op a b : String) : String :=
+  let fmt : Option (Nat × Nat × Nat) :=
+    match ty with
+    | "f64" => some (52, 11, 53)
+    | "f32" => some (23, 8, 24)
+    | _ => none
+  match fmt, parseHex a, parseHex b with
+  | some (mb, eb, p), some ba, some bb =>
+    match decodeFloat mb eb ba, decodeFloat mb eb bb with
+    | some x, some y =>
+      match op with
+      | "add" => geoS (rnd p (x + y))
+      | "sub" => geoS (rnd p (x - y))
+      | "mul" => geoS (rnd p (x * y))
+      | "div" => if y = 0 then "bad-op" else geoS (rnd p (x / y))
+      | _ => "bad-op"
+    | _, _ => "bad-op"
+  | _, _, _ => "bad-op"
+
 /-- top-level hook: `geo <op> <args…>`; stateless -/
 def topGeo (s : Sess) (toks : List String) : Option (Sess × String) :=
   match toks with
+  | ["geo", "flop", ty, op, a, b] => some (s, geoFlop ty op a b)
   | "geo" :: op :: args =>
       match args.mapM parseRat with
       | none => some (s, "bad-op")
